@@ -466,7 +466,7 @@ fn exh_max_len(tier: Tier) -> usize {
 
 const BLOCK: u64 = 5000;
 fn cases(tier: Tier) -> u64 {
-    tier.pick(100_000, 2_000_000)
+    tier.pick(400_000, 2_000_000)
 }
 
 impl Property for C05P {
